@@ -1,6 +1,86 @@
-/-! line protocol for C19 (stub: no model yet) -/
+import ObiVerif.Model.Kmer
+import ObiVerif.Model.DeBruijn
+import ObiVerif.Driver.Util
+/-! line protocol for C19 (see `harness/c19.go` for the case and result formats) -/
 namespace ObiVerif.Driver.C19
+open ObiVerif.Kmer ObiVerif.DeBruijn ObiVerif.Driver
 
-def run (_line : String) : String := "bad-op"
+def hexNat (n : Nat) : String := String.ofList (Nat.toDigits 16 n)
+
+def joinC (l : List String) : String := if l.isEmpty then "-" else ",".intercalate l
+
+def bytesStr (l : List UInt8) : String := String.ofList (l.map fun b => Char.ofNat b.toNat)
+
+def hexCodes (l : List Nat) : String := hex (l.map UInt8.ofNat)
+
+def repeatBytes (u : List UInt8) : Nat → List UInt8 → List UInt8
+  | 0, acc => acc
+  | n + 1, acc => repeatBytes u n (u ++ acc)
+
+/-- fuel of the label-correcting loop of `HaviestPath` handed to the model by the driver -/
+def hpFuel : Nat := 2000000
+
+def insSorted (p : Nat × Nat) : List (Nat × Nat) → List (Nat × Nat)
+  | [] => [p]
+  | q :: t => if p.1 ≤ q.1 then p :: q :: t else q :: insSorted p t
+
+def maskOf (l : List Nat) (f : Nat → Nat) : Nat := l.foldl (fun m x => m ||| (1 <<< f x)) 0
+
+def parseRead (r : String) : Option (List UInt8 × Nat) :=
+  match r.splitOn ":" with
+  | [s, c] => do
+    let s ← unhex s
+    let c ← c.toNat?
+    if c < 1 ∨ c > 1000000 then none else pure (s.map lower, c)
+  | _ => none
+
+def runGraph (k : Nat) (reads : List (List UInt8 × Nat)) : String :=
+  let g := reads.foldl (fun g r => g.push r.1 r.2) (makeGraph k)
+  let sorted := g.nodes.foldr insSorted []
+  let nodeStr := joinC (sorted.map fun (x, w) =>
+    s!"{hexNat x}:{w}:{hexNat (maskOf (g.succ x) (· % 4))}:{hexNat (maskOf ((g.previouses x).getD []) (fun y => (y / 4 ^ (k - 1)) % 4))}")
+  match g.hasCycle with
+  | none => s!"n={nodeStr} cyc=fuel"
+  | some cyc =>
+    let pathStr := match g.heaviestPath hpFuel with
+      | .nil => "nil"
+      | .panic => "panic"
+      | .fuel => "fuel"
+      | .path p => ",".intercalate (p.map hexNat)
+    let consStr := match g.longestConsensus hpFuel with
+      | .err => "err"
+      | .panic => "panic"
+      | .fuel => "fuel"
+      | .seq s => hex s
+    s!"n={nodeStr} cyc={if cyc then 1 else 0} path={pathStr} cons={consStr}"
+
+def run (line : String) : String :=
+  match words line with
+  | ["e4", s] =>
+    match unhex s with
+    | some s => hexCodes (encode4mer (s.map lower))
+    | none => "bad-op"
+  | ["c4", u, reps] =>
+    match unhex u, reps.toNat? with
+    | some u, some reps =>
+      if reps * u.length > 4194304 then "bad-op" else
+        let tab := count4mer ((repeatBytes u reps []).map lower)
+        joinC (((List.range 256).filter fun i => tab.getD i 0 ≠ 0).map fun i => s!"{i}:{tab.getD i 0}")
+    | _, _ => "bad-op"
+  | ["nk", w, k, sp, s] =>
+    match w.toNat?, k.toNat?, unhex s with
+    | some w, some k, some s =>
+      if (w ≠ 64 ∧ w ≠ 128 ∧ w ≠ 256) ∨ k < 1 ∨ k > 200 ∨ (sp ≠ "0" ∧ sp ≠ "1") then "bad-op" else
+        match newKmerMap w k (sp == "1") with
+        | .error _ => "panic"
+        | .ok m =>
+          let ks := normalizedKmerSlice m (s.map lower)
+          s!"k={m.kmersize} sp={m.sparseAt} {joinC (ks.map fun x => hexNat x ++ "/" ++ bytesStr (kmerAsString m x))}"
+    | _, _, _ => "bad-op"
+  | "g" :: k :: reads =>
+    match k.toNat?, reads.mapM parseRead with
+    | some k, some reads => if k < 1 ∨ k > 32 then "bad-op" else runGraph k reads
+    | _, _ => "bad-op"
+  | _ => "bad-op"
 
 end ObiVerif.Driver.C19
